@@ -209,6 +209,44 @@ func c11Scenarios() []lncScen {
 				x.exchange(c2, sc2, 100)
 			}
 		}},
+		{"dial-while-open-after-peer-close", lncrun.Options{PrePaired: true}, func(s *lncrun.Session, x *lncExpect) {
+			// the server has closed its end (the client's status is no
+			// longer "Connected") but the client application has not closed
+			// its connection yet: a Dial may still only return after it has
+			s.Serve()
+			c, sc := x.connect(1)
+			if c == nil {
+				return
+			}
+			x.exchange(c, sc, 100)
+			c.KeepOpenOnReadError()
+			sc.Close("script")
+			for i := 0; i < 100 && s.PollStatus("c") == 3; i++ {
+				time.Sleep(100 * time.Millisecond)
+			}
+			second := make(chan *lncrun.Conn, 1)
+			go func() { second <- s.Dial("c", 2) }()
+			time.Sleep(4 * time.Second)
+			select {
+			case <-second:
+				x.check("dial blocks while the previous connection is open", false)
+				return
+			default:
+			}
+			c.Close("script")
+			c2 := <-second
+			x.check("dial returns a working connection", c2 != nil && c2.Sec != nil)
+			var sc2 *lncrun.Conn
+			for {
+				sc2 = s.Accepted()
+				if sc2 == nil || (sc2.Sec != nil && c2 != nil && sc2.PeerID(20*time.Second) == c2.ID) {
+					break
+				}
+			}
+			if c2 != nil && c2.Sec != nil && x.check("accept returns a working connection", sc2 != nil) {
+				x.exchange(c2, sc2, 100)
+			}
+		}},
 		{"dial-during-slow-close", lncrun.Options{PrePaired: true}, func(s *lncrun.Session, x *lncExpect) {
 			// a Dial is already waiting for the previous connection when
 			// that one is closed, and the closing of its receive stream
